@@ -376,15 +376,19 @@ func genForeign(r *rng) *foreignPkg {
 	// numbering and notes parts the way other producers write them: the WordprocessingML namespace under the usual
 	// prefix, under another prefix, or as the default namespace
 	nsForms := func(root, inner string) string {
+		bom := ""
+		if r.chance(15) {
+			bom = "\xef\xbb\xbf" // a byte order mark, as some producers write at the start of every part
+		}
 		switch r.intn(4) {
 		case 0:
 			q := "ns0"
-			return `<?xml version="1.0"?><` + q + `:` + root + ` xmlns:` + q + `="` + wNS + `">` + strings.ReplaceAll(inner, "w:", q+":") + `</` + q + `:` + root + `>`
+			return bom + `<?xml version="1.0"?><` + q + `:` + root + ` xmlns:` + q + `="` + wNS + `">` + strings.ReplaceAll(inner, "w:", q+":") + `</` + q + `:` + root + `>`
 		case 1:
 			in := strings.ReplaceAll(strings.ReplaceAll(inner, "<w:", "<"), "</w:", "</")
-			return `<?xml version="1.0"?><` + root + ` xmlns="` + wNS + `" xmlns:w="` + wNS + `">` + in + `</` + root + `>`
+			return bom + `<?xml version="1.0"?><` + root + ` xmlns="` + wNS + `" xmlns:w="` + wNS + `">` + in + `</` + root + `>`
 		}
-		return `<?xml version="1.0"?><w:` + root + ` xmlns:w="` + wNS + `">` + inner + `</w:` + root + `>`
+		return bom + `<?xml version="1.0"?><w:` + root + ` xmlns:w="` + wNS + `">` + inner + `</w:` + root + `>`
 	}
 	if r.chance(30) {
 		f.Extra["word/numbering.xml"] = nsForms("numbering", `<w:abstractNum w:abstractNumId="5"><w:lvl w:ilvl="0"><w:start w:val="1"/><w:numFmt w:val="decimal"/><w:lvlText w:val="%1)"/></w:lvl></w:abstractNum><w:num w:numId="9"><w:abstractNumId w:val="5"/></w:num>`)
